@@ -36,11 +36,12 @@ type idpBehaviour struct {
 	TokenType   string
 	Extra       bool // extra members in the response
 	HugeExpires bool
+	OddClaims   int // >0: the ID token carries claims of unexpected JSON types (variant number)
 }
 
 func (b idpBehaviour) label() string {
-	return fmt.Sprintf("%s/sig=%s/aud=%s/nonce=%s/exp_in=%d/idlife=%d/rt=%v/rot=%v/omitid=%v/omitat=%v/tt=%s", b.Kind, b.Sig, b.Aud, b.Nonce,
-		b.ExpiresIn, b.IDLife, b.Refresh, b.Rotate, b.OmitID, b.OmitAccess, b.TokenType)
+	return fmt.Sprintf("%s/sig=%s/aud=%s/nonce=%s/exp_in=%d/idlife=%d/rt=%v/rot=%v/omitid=%v/omitat=%v/tt=%s/odd=%d", b.Kind, b.Sig, b.Aud, b.Nonce,
+		b.ExpiresIn, b.IDLife, b.Refresh, b.Rotate, b.OmitID, b.OmitAccess, b.TokenType, b.OddClaims)
 }
 
 func compliant() idpBehaviour {
@@ -158,6 +159,21 @@ func (s *Sim) idToken(b idpBehaviour, nonce string) string {
 	}
 	if b.IDLife != 0 {
 		spec.Exp = s.w.now.Unix() + int64(b.IDLife)
+	}
+	if b.OddClaims > 0 {
+		// registered and OIDC claims with values of unexpected JSON types (the audience stays acceptable in most variants so
+		// that validation gets as far as it can)
+		odd := []map[string]any{
+			{"azp": 12345}, {"azp": true}, {"azp": []any{"a", 1}}, {"azp": map[string]any{"x": 1}}, {"azp": nil},
+			{"amr": "pwd", "acr": 7, "auth_time": "yesterday"}, {"iat": "now"}, {"nbf": []any{}}, {"sub": 42}, {"iss": []any{"a"}},
+			{"exp": "soon"}, {"exp": 1e30}, {"exp": -1}, {"aud": 5}, {"aud": []any{1, 2}}, {"aud": map[string]any{"a": 1}}, {"aud": []any{}},
+			{"nonce": []any{"x"}}, {"nonce": map[string]any{}}, {"nonce": nil}, {"nonce": true}, {"jti": 1.5, "at_hash": 3, "c_hash": []any{}},
+			{"azp": 1, "aud": []any{"other", cid, "third"}}, {"azp": []any{}, "aud": []any{cid, "x"}},
+		}
+		spec.Claims = odd[(b.OddClaims-1)%len(odd)]
+		if b.OddClaims%2 == 0 && spec.Claims["aud"] == nil {
+			spec.Aud = []string{"other", cid}
+		}
 	}
 	s.nTok++
 	tok := s.w.mint(spec)
@@ -350,7 +366,9 @@ func (s *Sim) randCompliant() idpBehaviour {
 func (s *Sim) randAdversarial() idpBehaviour {
 	r := s.r
 	b := s.randCompliant()
-	switch r.Intn(10) {
+	switch r.Intn(12) {
+	case 10, 11:
+		b.OddClaims = 1 + r.Intn(48)
 	case 0, 1, 2:
 		b.Sig = pick(r, []string{"none", "hs-pub", "foreign", "tampered", "stripped", "nokid", "unknownkid", "garbage", "twoseg"})
 	case 3:
@@ -389,6 +407,10 @@ func (s *Sim) RandomStep(faultRate, attackRate int) string {
 			f[r.Intn(5)] = pick(r, []faultKind{failBefore, failAfter})
 		}
 		jf := r.Intn(4) == 0
+		if s.w.rhook != nil && r.Intn(3) == 0 { // Redis: fail a single command instead (single-command operations only)
+			f = nil
+			s.w.NextCmdFaults = []string{pick(r, []string{"del", "hmget", "del"})}
+		}
 		path := pick(r, appPaths)
 		if s.Pending != nil && r.Intn(2) == 0 {
 			path = s.Authorize()
@@ -506,6 +528,8 @@ func (s *Sim) attack() string {
 			sid = "x"
 		}
 		hdr := pick(r, []string{
+			name + "=\"" + sid + "\"", name + "=\"", "a=\"; " + name + "=" + sid, "lang=en; a=\"; theme=dark", "\"=\"", name + "=\"\"", "a='; b=\"x",
+			name + "=" + sid + "\"", "=\"", "\"", "a=b;\"", name + "=%22", name + "=\x00", name + "=\xff\xfe", "\xc2\xa0" + name + "=" + sid,
 			"a=b; " + name + "=" + sid, name + "=" + sid + "; " + name + "=other", " " + name + "=" + sid + " ;c=d", name + "=" + sid + "=x",
 			name + " =" + sid, strings.ToLower(name) + "=" + sid, name + "=", ";;;", name + "x=" + sid, "x" + name + "=" + sid, "\t" + name + "=" + sid + "\r\n"})
 		s.request(reqSpec{Scheme: "https", Host: s.AppHost, Path: pick(r, appPaths), Cookie: hdr}, nil, false)
